@@ -92,6 +92,8 @@ def check_graph(ns, I, seed, res, mono_pairs):
     viol = []
     cand = [x for x in ns if x != ns[0]]
     so = subject_object_choices(ns, 2, 2, False, (ns[0],))
+    # the root module itself as the single subject or object (edge of the domain)
+    so += [x for x in subject_object_choices(ns, 1, 1, False, ()) if ns[0] in x[0] or ns[0] in x[1]]
     for subj, obj in so:
         for sk in KINDS:
             for ok in KINDS:
